@@ -199,6 +199,8 @@ def st_basin(draw):
             "enc": draw(st.sampled_from(["fixed-zstd1", "fixed-zstd1", "vlen",
                                          "fixed-zstd5", "fixed-contig"])),
             "restrict": draw(st.booleans()),
+            # internal basin that also lists a feature the file stores itself
+            "overlap": draw(st.sampled_from([False, False, False, True])),
             "image": draw(st.booleans()),
             "m": draw(st.integers(1, 12))}
 
@@ -564,6 +566,13 @@ def write_basins(h5, spec, d, info):
                 if "userdef3" in grp:
                     continue
                 ifeats["userdef3"] = r.normal(size=m)
+                ov = [f for f in ("deform", "circ", "area_um", "userdef1", "pos_x")
+                      if f in names and f not in grp]
+                if b.get("overlap") and ov:
+                    # stored innately *and* offered by the internal basin (the
+                    # innate data take precedence and must survive the copy)
+                    ifeats[ov[0]] = r.normal(size=m)
+                    info.setdefault("overlap", []).append(ov[0])
             if kind in ("int-mixed", "int-nonsc") and "image_bg" not in names \
                     and "image_bg" not in grp:
                 ifeats["image_bg"] = r.integers(
@@ -871,6 +880,8 @@ def run_layout(spec, rec, d):
     for k in info["basin_kinds"]:
         rec.cls({"file": "basin:file", "mapped": "basin:mapped"}.get(
             k, "basin:internal"))
+    if info.get("overlap"):
+        rec.cls("basin:internal-overlaps-innate")
     nbas = len(info["basin_kinds"])
     if nbas >= 2:
         rec.cls("basin:multi")
